@@ -84,7 +84,8 @@ def strategy(tier):
     nested = stdvals.std_strategy(S, payload=payload)
     outer = st.one_of(*[nested[k] for k in ('odict', 'ddict', 'deque', 'chainmap', 'mproxy', 'ns', 'ntuple', 'partial', 'exc')])
     inst = st.one_of(inner, inner, inner, outer)
-    cfg = st.fixed_dictionaries({'width': S['width'], 'ribbon_width': S['width'], 'indent': st.sampled_from([1, 2, 4, 8])})
+    cfg = st.fixed_dictionaries({'width': S['width'], 'ribbon_width': S['width'], 'indent': st.sampled_from([1, 2, 4, 8]),
+                                 'sort_dict_keys': st.booleans()})
     return st.fixed_dictionaries({'v': inst, 'place': st.sampled_from(PLACES), 'cfg': cfg})
 
 
@@ -146,15 +147,21 @@ def oracle(case):
         back = values.evaluate(p.text, _env())
     except Exception as e:
         return core.viol('not-evaluable', '%r\n%s' % (e, p.text[:600]), labels)
+    if case['cfg'].get('sort_dict_keys'):
+        # plain dict payloads are legitimately reordered; ordered types (OrderedDict, sequences) are not
+        def cmp(a, b, mode='keep'):
+            return stdvals.deep_same(a, b, 'sort')
+    else:
+        cmp = stdvals.deep_same
     try:
         got = back[1]['k'] if where == 'rebuilt-pair' else unplace(back, where)
-        if where == 'rebuilt-pair' and stdvals.std_equal(v, back[0], stdvals.deep_same):
-            return core.viol('not-equal', 'first of two equal instances: %s\n%s' % (stdvals.std_equal(v, back[0], stdvals.deep_same), p.text[:600]), labels)
-        if where == 'twice' and stdvals.std_equal(v, back[0], stdvals.deep_same):
-            return core.viol('not-equal', 'first occurrence: %s\n%s' % (stdvals.std_equal(v, back[0], stdvals.deep_same), p.text[:600]), labels)
+        if where == 'rebuilt-pair' and stdvals.std_equal(v, back[0], cmp):
+            return core.viol('not-equal', 'first of two equal instances: %s\n%s' % (stdvals.std_equal(v, back[0], cmp), p.text[:600]), labels)
+        if where == 'twice' and stdvals.std_equal(v, back[0], cmp):
+            return core.viol('not-equal', 'first occurrence: %s\n%s' % (stdvals.std_equal(v, back[0], cmp), p.text[:600]), labels)
     except Exception as e:
         return core.viol('wrong-shape', '%r\n%s' % (e, p.text[:600]), labels)
-    why = stdvals.std_equal(v, got, stdvals.deep_same)
+    why = stdvals.std_equal(v, got, cmp)
     if why:
         return core.viol('not-equal', '%s\n%s' % (why, p.text[:600]), labels)
     return core.ok(where != 'top' or not trivial_instance(r), labels)
